@@ -396,6 +396,8 @@ package server
 //@   props C04 C05
 //@   requires s != nil && params != nil && DocSmall(s, params.TextDocument.URI)
 //@   ensures [C04:absent] !hasDoc(s, params.TextDocument.URI) ==> len(result0) == 0
+//@   loop 1 invariant 0 - 1 <= rangeindex && rangeindex <= len(parseErrs) - 1 && opts.SkipLines != nil && fresh(opts.SkipLines)
+//@   loop 1 invariant forall k int :: {parseErrs[k]} 0 <= k && k <= rangeindex ==> opts.SkipLines[parseErrs[k].Pos.Line - 1]
 //@   modifies s.workspace.cachedFormats
 
 //@ func (*Server).DidClose
